@@ -35,6 +35,18 @@ CHECKS = {
    text="The action property Stable of spec/Heap.tla (no step changes an existing object except the target of set_core / reduce_dims) is checked by TLC on the model and enforced on the implementation by replaying every generated history and comparing, after the last call, every pre-existing live object bitwise (cores, metadata, torch version counters) with its snapshot and with the model's heap; views created earlier in a history remain live so writes through shared storage are visible.",
    note="Small scope as C05; iterative routines with optional initial guesses are covered by the effects table run (see evidence).",
    technique="TLA+ action property over heap histories, TLC, replay into torchtt with bitwise operand snapshots"),
+ "C18": dict(level=MC, design="§6 C18",
+   text="spec/Err.tla is the error side of the operation table: for every public entry point the classes of incompatible arguments (shape / order / kind mismatch at each position, wrong argument types, out-of-range axes, indices and core positions, invalid permutations, element-count mismatches, ill-formed core lists, bad rank lists). TLC enumerates the table over small structures and checks on the model that each case has no dense counterpart under torch broadcasting; every case is called on the implementation: returning anything is a violation; for docstring-named cases the exception must be a library class.",
+   note="The table's completeness is by reading the public API (a coverage list in the evidence names the entry points it covers); invalid-but-well-typed values (negative eps) are outside the property.",
+   technique="TLA+ error-outcome table, TLC enumeration + invariant that every case is truly incompatible, each case called on torchtt"),
+ "C19": dict(level=MC, design="§6 C19",
+   text="TLC enumerates (structure, origin, operation) for save+load, clone, detach, to(dtype), cpu, numpy with the expected outcome 'identity on the projected state' (descriptor, value); the harness builds the object from cores / TT-SVD (numpy ints in R) / strided slices / transposed views, performs the operation and checks descriptor, dtype, bit-identical cores, the TLC value, storage disjointness of clones (incl. a write into the clone).",
+   note="CPU only; small scope of structures (order<=3 exhaustive, canonical order 4-6).",
+   technique="TLA+ identity specification over enumerated structures/origins, TLC enumeration, replay with bitwise core comparison"),
+ "C20": dict(level=MC, design="§6 C20",
+   text="The action LayerForward of spec/Alg.tla defines forward(x) = W.x + b over exact integers for every enumerated (size_in, size_out, rank profile, batch shape); the harness constructs the real layer, checks parameter registration, overwrites parameters with the model's integer fill and compares forward bit-for-bit for 0..3 batch dims, float64/float32; on the random initialisation forward and parameter gradients are compared with autograd of the dense affine map.",
+   note="Order 1-2 layers exhaustive over sizes {1,2,3}, canonical order 3-4 up to size 5; initialiser statistics not covered.",
+   technique="TLA+ dense affine-map semantics, TLC enumeration, replay into torch.nn module with exact comparison + autograd cross-check"),
 }
 
 NA = {}
